@@ -2,7 +2,7 @@
     Theorems only: statement, [exact], [Print Assumptions] (statements restated verbatim from the
     Inv_*.v files where they are proved).  See DESIGN.md section 5 for how each renders the property. *)
 From CB Require Import ProofLib Spec MonitorSound Results.
-From CB Require Import Inv_combine.
+From CB Require Import Inv_combine Passive Bcast_merge_combine.
 
 Theorem C10_combine_tuples n p :
   1 <= n -> nsinks p = 1 -> resub p = false -> no_nest p = false -> c14 p = false ->
@@ -33,3 +33,71 @@ Theorem C10_combine_completes n p :
      s = 0 /\ sk (ms c) 0 = SFinished /\ forall j, j < n -> us (ms c) j = UEnded).
 Proof. exact (@combine_completes n p). Qed.
 Print Assumptions C10_combine_completes.
+
+(** ** every sink Pull reaches every member that is still running.  combine! sends it to EVERY member
+    0..n-1 (also ended ones: recorded finding KF2 under C04), so in particular to the running ones *)
+
+Theorem C10_combine_pull_broadcast p n :
+  nsinks p = 1 -> resub p = false -> no_nest p = false -> c14 p = false -> late_ok p = false ->
+  one_pull p = false ->
+  1 <= n ->
+  forall c : cfg (combine_op n), reach p g_std c -> stack c = [] -> sk (ms c) 0 = SLive ->
+  exists fuel,
+    let c' := drain p fuel (step p c (MIn (IUp 0 UP))) in
+    stack c' = [] /\
+    exists evs, trace c' = trace c ++ evs /\
+      calls_of evs = map (fun j => CUp j UP) (seq 0 n) /\
+      reach p g_std c'.
+Proof. exact (@combine_pull_broadcast p n). Qed.
+Print Assumptions C10_combine_pull_broadcast.
+
+Theorem C10_combine_pull_broadcast_partial p n :
+  nsinks p = 1 -> resub p = false -> no_nest p = false -> c14 p = false -> late_ok p = false ->
+  1 <= n ->
+  forall c : cfg (combine_op n), reach p g_std c -> stack c = [] -> sk (ms c) 0 = SLive ->
+  exists fuel,
+    let c' := drain p fuel (step p c (MIn (IUp 0 UP))) in
+    stack c' = [] /\
+    exists evs, trace c' = trace c ++ evs /\
+      calls_of evs = map (fun j => CUp j UP) (seq 0 n) /\
+      (enabled p g_std c (MIn (IUp 0 UP)) = true -> reach p g_std c').
+Proof. exact (@combine_pull_broadcast_partial p n). Qed.
+Print Assumptions C10_combine_pull_broadcast_partial.
+
+Theorem C10_combine_pull_reaches_running p n :
+  nsinks p = 1 -> resub p = false -> no_nest p = false -> c14 p = false -> late_ok p = false ->
+  1 <= n ->
+  forall c : cfg (combine_op n), reach p g_std c ->
+  forall j, us (ms c) j = ULive -> In (CUp j UP) (map (fun j => CUp j UP) (seq 0 n)).
+Proof. exact (@combine_pull_reaches_running p n). Qed.
+Print Assumptions C10_combine_pull_reaches_running.
+
+Theorem C10_combine_term_broadcast p n :
+  nsinks p = 1 -> resub p = false -> no_nest p = false -> c14 p = false -> late_ok p = false ->
+  1 <= n ->
+  forall c : cfg (combine_op n), reach p g_std c -> stack c = [] -> sk (ms c) 0 = SLive ->
+  exists fuel,
+    let c' := drain p fuel (step p c (MIn (IUp 0 UT))) in
+    stack c' = [] /\
+    exists evs, trace c' = trace c ++ evs /\
+      calls_of evs = map (fun j => CUp j UT) (seq 0 n) /\
+      reach p g_std c'.
+Proof. exact (@combine_term_broadcast p n). Qed.
+Print Assumptions C10_combine_term_broadcast.
+
+(** ** exactly one tuple per member datum once every other member has a value, none before *)
+
+Theorem C10_combine_one_tuple_per_datum_prop p n :
+  nsinks p = 1 -> resub p = false -> no_nest p = false -> c14 p = false -> late_ok p = false ->
+  1 <= n ->
+  forall (c : cfg (combine_op n)) j v, reach p g_std c ->
+    enabled p g_std c (MIn (IDn j (DD v))) = true -> j < n ->
+    exists evs, trace (step p c (MIn (IDn j (DD v)))) = trace c ++ evs /\
+      ((forall k, k < n -> k <> j -> cb_vals (cst c) k <> None) ->
+         exists l, calls_of evs = [CDn 0 (DD (VT l))] /\ length l = n /\
+                   nth_error l j = Some v /\
+                   forall k, k < n -> k <> j -> nth_error l k = cb_vals (cst c) k) /\
+      ((exists k, k < n /\ k <> j /\ cb_vals (cst c) k = None) -> calls_of evs = []).
+Proof. exact (@combine_one_tuple_per_datum_prop p n). Qed.
+Print Assumptions C10_combine_one_tuple_per_datum_prop.
+
